@@ -71,6 +71,8 @@ def _gen_shaper(rng, triples, source, ns_pressure, bnodes=False, tp=gen.RDF_TYPE
             o["disable_endpoint_cache"] = True
     if rng.random() < 0.1 and "shape_map_raw" not in sp["target"]:
         o["instances_cap"] = rng.randint(1, 3)
+    if rng.random() < 0.12:
+        o["namespaces_to_ignore"] = rng.choice([[gen.EX], [gen.RDF_NS], [gen.EX, gen.RDF_NS], [gen.OTHER]])
     sp["options"] = o
     sp["ns"] = gen.gen_namespaces(rng, shape_prefix_pressure=ns_pressure)
     if rng.random() < 0.3:
